@@ -3,7 +3,8 @@
 P=$1; shift
 cd /repo || exit 2
 git diff --quiet || { echo "repo dirty"; exit 2; }
-git apply --3way "$P" 2>/dev/null || git apply "$P" || { echo "PATCH DOES NOT APPLY"; exit 3; }
+git apply "$P" 2>/dev/null || git apply --3way "$P" 2>/dev/null || { git reset -q --hard HEAD; echo "PATCH DOES NOT APPLY"; exit 3; }
+if git diff --name-only --diff-filter=U | grep -q .; then git reset -q --hard HEAD; echo "PATCH CONFLICTS"; exit 3; fi
 cd /verif
 for c in "$@"; do
   echo "=== $c on $(basename $P)"
